@@ -153,8 +153,11 @@ func (st *state) frameHook(c *netctl.Conn, dir string, key, ver int16, frame []b
 		return
 	}
 	if dir == "req" {
-		if st.onProduce != nil {
-			st.onProduce()
+		st.mu.Lock()
+		f := st.onProduce
+		st.mu.Unlock()
+		if f != nil {
+			f()
 		}
 		if len(frame) < 12 {
 			return
@@ -191,10 +194,16 @@ func (st *state) frameHook(c *netctl.Conn, dir string, key, ver int16, frame []b
 	if as, ok := st.byCorr[k]; ok {
 		// Answer to a request kfake processed.
 		delete(st.byCorr, k)
+		first := map[int32]bool{} // partitions whose batch in this request is the owner's first batch
+		for _, a := range as {
+			if p := st.partOf[a.name]; st.head(p) == a.name {
+				first[p] = true
+			}
+		}
 		for _, a := range as {
 			p := st.partOf[a.name]
 			a.respAt, a.code = st.clock, codes[p]
-			a.discarded = st.head(p) != a.name
+			a.discarded = !first[p]
 		}
 		return
 	}
